@@ -8,9 +8,10 @@ import DdoModel.Proofs.SeqInvDedup
 with the plain multiset fringe, and its fringe is a *coalescing* (`Coalesces`, see
 `Proofs/SeqInvDedup.lean`) of the plain one.  Since the coverage invariant is stable under
 coalescing when `Phi` is monotone in the value (`Inv.of_coalesce`), `process_inv_dedup` follows from
-`C01.process_inv`, and `process_below_dedup` from `C05.process_below` (a coalesced bound is one of the
-bounds that were there).  The cutoff theorems of C05 carry over verbatim because a cut-off
-`process_one_node` never touches the fringe (`process_cutoff_dedup_irrel`).  Core Lean only. -/
+`C01.process_inv`.  The cutoff theorems of C05 carry over verbatim because a cut-off
+`process_one_node` never touches the fringe (`process_cutoff_dedup_irrel`); `best_ub` (since the repair of D14 the
+running minimum of the popped bounds) is not written by `process_one_node` with either fringe
+(`C05.process_ub_eq`), so C19's monotonicity of the reported upper bound is `turn_ub_le_any`.  Core Lean only. -/
 set_option linter.unusedSectionVars false
 namespace Ddo.C01b
 variable {S : Type} [DecidableEq S]
@@ -44,10 +45,10 @@ theorem process_dedup_rel (st : SeqSt S) (N : SubP S) (me : Bool) (r x : DDRes S
             have f2 := (updateBest_fringe (st.updateBest r) x).1
             split
             · exact ⟨rfl, rfl, rfl, rfl, rfl, fun h => by rw [f2, f1]; exact h, Coalesces.refl _⟩
-            · obtain ⟨t1, t2, t3, t4, tk, _⟩ := enqueue_true_spec ((st.updateBest r).updateBest x) N.ub x.cutset
-              obtain ⟨e1, e2, e3, e4, _⟩ := enqueue_false_spec ((st.updateBest r).updateBest x) N.ub x.cutset
+            · obtain ⟨t1, t2, t3, t4, tk, _⟩ := enqueue_true_spec ((st.updateBest r).updateBest x) x.cutset
+              obtain ⟨e1, e2, e3, e4, _⟩ := enqueue_false_spec ((st.updateBest r).updateBest x) x.cutset
               exact ⟨t1.trans e1.symm, t2.trans e2.symm, t3.trans e3.symm, t4.trans e4.symm, rfl,
-                fun h => tk (by rw [f2, f1]; exact h), enqueue_true_coalesces_false _ _ _⟩
+                fun h => tk (by rw [f2, f1]; exact h), enqueue_true_coalesces_false _ _⟩
 
 section
 variable (Phi : SubP S → EInt) (opt : Int) (Sol : List Dec → Int → Prop)
@@ -112,25 +113,18 @@ theorem process_inv_dedup_potential (H : Nat → S → EInt) (opt : Int) (Sol : 
 
 /-! ## C05 / C19 with the duplicate-free fringe -/
 
-/-- **`process_below_dedup`**: whatever is in the duplicate-free fringe after processing `N` is below
-    `N.ub`, given it was so before: a coalesced bound is the max of two bounds both `≤ N.ub` -/
-theorem process_below_dedup (st : SeqSt S) (N : SubP S) (me : Bool) (r x : DDRes S)
-    (hmax : C05.Below st.fringe N) : C05.Below (st.process true N me r x).1.fringe N := by
-  intro s hs
-  obtain ⟨_, _, _, _, _, _, hco⟩ := process_dedup_rel st N me r x
-  obtain ⟨a, b, _, hb, rfl, _⟩ := hco.1 s hs
-  exact C05.process_below st N me r x hmax b hb
-
-theorem process_below_any (dedup : Bool) (st : SeqSt S) (N : SubP S) (me : Bool) (r x : DDRes S)
-    (hmax : C05.Below st.fringe N) : C05.Below (st.process dedup N me r x).1.fringe N := by
-  cases dedup
-  · exact C05.process_below st N me r x hmax
-  · exact process_below_dedup st N me r x hmax
-
-/-- C19 for the duplicate-free fringe: the next popped bound is not larger -/
-theorem next_pop_le_dedup (st : SeqSt S) (N M : SubP S) (me : Bool) (r x : DDRes S) (hmax : C05.Below st.fringe N)
-    (hM : M ∈ (st.process true N me r x).1.fringe) : M.ub ≤ N.ub :=
-  process_below_dedup st N me r x hmax M hM
+/-- **C19 for either fringe**: over one turn of the loop (pop of `N`, then `process_one_node`) the reported upper bound —
+    the running minimum of the popped bounds — does not increase, and the incumbent does not decrease.  (Replaces the
+    pre-fix `process_below_any` / `next_pop_le_dedup`: "everything open stays below the bound of the node in hand" is false
+    for the repaired solver, whose cut-set nodes keep the bound of their own diagram.) -/
+theorem turn_ub_le_any (dedup : Bool) (st : SeqSt S) (rest : List (SubP S)) (N : SubP S) (me : Bool) (r x : DDRes S) :
+    (({ st.afterPop N with fringe := rest } : SeqSt S).process dedup N me r x).1.bestUb ≤ st.bestUb ∧
+    st.bestLb ≤ (({ st.afterPop N with fringe := rest } : SeqSt S).process dedup N me r x).1.bestLb := by
+  refine ⟨C05.turn_ub_le dedup st rest N me r x, ?_⟩
+  have h := C05.process_lb_mono dedup ({ st.afterPop N with fringe := rest } : SeqSt S) N me r x
+  have e : ({ st.afterPop N with fringe := rest } : SeqSt S).bestLb = st.bestLb := by
+    unfold SeqSt.afterPop; split <;> rfl
+  omega
 
 /-- a `process_one_node` that is cut off does not look at the kind of fringe -/
 theorem process_cutoff_dedup_irrel (dedup : Bool) (st : SeqSt S) (N : SubP S) (me : Bool) (r x : DDRes S)
@@ -147,23 +141,24 @@ variable (Phi : SubP S → EInt) (opt : Int) (Sol : List Dec → Int → Prop)
 
 /-- `C05.cutoff_bounds_restricted` for either fringe -/
 theorem cutoff_bounds_restricted_any (dedup : Bool) (st : SeqSt S) (N : SubP S) (x : DDRes S)
-    (hinv : Inv Phi opt Sol (N :: st.fringe) st.bestLb st.bestSol) (hmax : C05.Below st.fringe N)
-    (hub : st.bestUb = N.ub) (hnp : ¬ N.ub ≤ st.bestLb) :
+    (ub0 : Int) (hinv : Inv Phi opt Sol (N :: st.fringe) st.bestLb st.bestSol) (hmax : C05.Below st.fringe N)
+    (hub : st.bestUb = min ub0 N.ub) (h0 : st.bestLb ≤ ub0 ∧ opt ≤ ub0) (hnp : ¬ N.ub ≤ st.bestLb) :
     let st' := (st.process dedup N true .cutoff x).1
-    st'.abort = true ∧ st'.bestLb ≤ opt ∧ opt ≤ st'.bestUb ∧ (∀ p, st'.bestSol = some p → Sol p st'.bestLb) := by
+    st'.abort = true ∧ st'.bestLb ≤ opt ∧ opt ≤ st'.bestUb ∧ st'.bestLb ≤ st'.bestUb ∧
+      (∀ p, st'.bestSol = some p → Sol p st'.bestLb) := by
   rw [process_cutoff_dedup_irrel dedup st N true .cutoff x (Or.inl rfl)]
-  exact C05.cutoff_bounds_restricted Phi opt Sol st N x hinv hmax hub hnp
+  exact C05.cutoff_bounds_restricted Phi opt Sol st N x ub0 hinv hmax hub h0 hnp
 
 /-- `C05.cutoff_bounds_relaxed` for either fringe -/
 theorem cutoff_bounds_relaxed_any (dedup : Bool) (st : SeqSt S) (N : SubP S) (r : DDOut S)
-    (hinv : Inv Phi opt Sol (N :: st.fringe) st.bestLb st.bestSol) (hmax : C05.Below st.fringe N)
+    (ub0 : Int) (hinv : Inv Phi opt Sol (N :: st.fringe) st.bestLb st.bestSol) (hmax : C05.Below st.fringe N)
     (hr : CompileOk Phi opt Sol N st.bestLb r) (hre : r.isExact = false)
-    (hub : st.bestUb = N.ub) (hnp : ¬ N.ub ≤ st.bestLb) :
+    (hub : st.bestUb = min ub0 N.ub) (h0 : st.bestLb ≤ ub0 ∧ opt ≤ ub0) (hnp : ¬ N.ub ≤ st.bestLb) :
     let st' := (st.process dedup N true (.ok r) .cutoff).1
     st'.abort = true ∧ st'.bestLb ≤ opt ∧ opt ≤ st'.bestUb ∧ st'.bestLb ≤ st'.bestUb ∧
       (∀ p, st'.bestSol = some p → Sol p st'.bestLb) := by
   rw [process_cutoff_dedup_irrel dedup st N true (.ok r) .cutoff (Or.inr ⟨r, rfl, Or.inr rfl⟩)]
-  exact C05.cutoff_bounds_relaxed Phi opt Sol st N r hinv hmax hr hre hub hnp
+  exact C05.cutoff_bounds_relaxed Phi opt Sol st N r ub0 hinv hmax hr hre hub h0 hnp
 
 end
 end Ddo.C01b
